@@ -328,3 +328,51 @@ Theorem c02_mgr_min_update_regression :
        (mrun_obs false (fst (mgr_decode mgr_witness)) mgr0 (snd (mgr_decode mgr_witness))) = 41.
 Proof. vm_compute. repeat split; reflexivity. Qed.
 Print Assumptions c02_mgr_min_update_regression.
+
+(* ---- 12. the manager (code as repaired by cf84410), any history of UpdateQuota / DeleteQuota /
+        pod requests / cluster total, with RefreshRuntime of every quota after every op:
+        EVERY calculator of the tree holds exactly the current QuotaInfo figures of the quotas
+        whose parent it serves (tree nodes and both caches), and the root calculator's total is
+        the cluster total ---- *)
+From Verif Require Import C02.Mgr_Proofs_Base C02.Mgr_Proofs_Inv C02.Mgr_Proofs_Step.
+
+Theorem c02_mgr_calculators_agree : forall K ops p,
+  let st := mrun K ops in let c := get_calc p st in let tb := kids p (g_quotas st) in
+  c_tree c = abs tb
+  /\ (forall k, c_get k (c_reqLimit c) = match tab_find k tb with Some q => limit_req q | None => 0 end)
+  /\ (forall k, c_get k (c_guaranteed c) = match tab_find k tb with Some q => q_guar q | None => 0 end)
+  /\ c_total (get_calc 0 st) = g_total st.
+Proof. exact mgr_calculators_agree. Qed.
+Print Assumptions c02_mgr_calculators_agree.
+
+(* ---- 13. RefreshRuntime(k) after any history reports the from-scratch division top-down along
+        k's path: [down] starts from the total of the calculator above the topmost quota of the
+        path (the cluster total when the path reaches the root — acyclic trees are C15's part)
+        and at every level takes redistribution of the level's total among the current figures
+        of that level's siblings; the figures themselves are not changed by the refresh ---- *)
+Theorem c02_mgr_refresh_division : forall K ops k mq,
+  let st := mrun K ops in
+  afind k (g_quotas st) = Some mq ->
+  let pth := rev (path k st) in
+  let top := top_parent pth st in
+  same_figs st (refresh k st)
+  /\ (top = 0 -> c_total (get_calc top st) = g_total st)
+  /\ exists mq', afind k (g_quotas (refresh k st)) = Some mq'
+                 /\ down pth (c_total (get_calc top st)) st = Some (q_runtime (m_info mq')).
+Proof. exact mgr_refresh_division. Qed.
+Print Assumptions c02_mgr_refresh_division.
+
+(* non-vacuity: a three-level tree root -> q1 -> q2 -> {q3, q4}, q5 under the root; total 100,
+   pods 60 / 30 / 50 in q3 / q4 / q5: RefreshRuntime gives q1 55, q2 55, q3 28, q4 27, q5 45; the
+   path of q3 is q1, q2, q3 and reaches the root, and [down] along it gives 28 *)
+Definition mgr_ex : list Z :=
+  [5; 9;  3;0;100;0;0;0;0;  0;1;0;3;100;10;0;  0;2;1;3;100;0;0;  0;3;2;2;100;0;0;  0;4;2;2;100;0;0;
+          0;5;0;2;100;0;0;  2;3;0;60;0;0;0;  2;4;0;30;0;0;0;  2;5;0;50;0;0;0].
+
+Example c02_mgr_nonvacuous :
+  skipn 40 (mgr_run_case mgr_ex) = [55; 55; 28; 27; 45]
+  /\ mgr_prop_case mgr_ex (mgr_run_case mgr_ex) = 0
+  /\ (let st := mrun 5 (snd (mgr_decode mgr_ex)) in
+      rev (path 3 st) = [1; 2; 3] /\ top_parent (rev (path 3 st)) st = 0
+      /\ down (rev (path 3 st)) (g_total st) st = Some 28).
+Proof. vm_compute. repeat split; reflexivity. Qed.
